@@ -145,16 +145,17 @@ func run(c *vf.Ctx) {
 		}
 	} else {
 		for i := 0; i < 4; i++ {
-			scen = append(scen, scenario{name: "open", blocks: 60, maxTxs: 6, pool: 30 + 5*i, restarts: 3})
+			scen = append(scen, scenario{name: "open", blocks: 110, maxTxs: 7, pool: 30 + 8*i, restarts: 3})
 		}
 		for i := 0; i < 3; i++ {
-			scen = append(scen, scenario{name: "open-private", blocks: 50, maxTxs: 6, pool: 14, restarts: 3})
+			scen = append(scen, scenario{name: "open-private", blocks: 100, maxTxs: 7, pool: 14, restarts: 3})
 		}
 		scen = append(scen,
-			scenario{name: "registry", registry: "custom", blocks: 60, maxTxs: 6, pool: 40, restarts: 3},
-			scenario{name: "registry", registry: "custom", blocks: 60, maxTxs: 6, pool: 24, restarts: 2},
-			scenario{name: "registry-altpath", registry: "custom-altpath", blocks: 50, maxTxs: 6, pool: 30, restarts: 2},
-			scenario{name: "real-names", registry: "real", blocks: 30, maxTxs: 5, pool: 16, restarts: 1},
+			scenario{name: "registry", registry: "custom", blocks: 110, maxTxs: 7, pool: 40, restarts: 3},
+			scenario{name: "registry", registry: "custom", blocks: 110, maxTxs: 7, pool: 24, restarts: 2},
+			scenario{name: "registry-altpath", registry: "custom-altpath", blocks: 90, maxTxs: 7, pool: 30, restarts: 2},
+			scenario{name: "real-names", registry: "real", blocks: 60, maxTxs: 6, pool: 16, restarts: 1},
+			scenario{name: "real-names", registry: "real", blocks: 60, maxTxs: 6, pool: 10, restarts: 1},
 		)
 	}
 	c.Parallel(len(scen), 6, 1200, func(i int, rng *rand.Rand) {
